@@ -345,6 +345,20 @@ example : specTrace exCfg { state := .ok, ack := .none, expiry := 0, comments :=
         attempt := 1, nSet := 1, nClr := 0, nAckN := 1, nProbN := 0, comments := [⟨1100, false⟩] })]
     = some .refuseOk := by decide
 
+/-- … a second acknowledgement accepted on top of one that has not run out (cluster handler) … -/
+example : specTrace exCfg { state := .critical, ack := .normal, expiry := 2000, comments := [] }
+    [(.ack .cluster true true false 0 1100,
+      { acc := true, ack := .sticky, expiry := 0, handled := true, problem := true, state := .critical, stype := .hard,
+        attempt := 1, nSet := 1, nClr := 0, nAckN := 1, nProbN := 0, comments := [] })]
+    = some .refuseAcked := by decide
+
+/-- … a second Acknowledgement notification for one acknowledge operation … -/
+example : specTrace exCfg { state := .critical, ack := .none, expiry := 0, comments := [] }
+    [(.ack .api false true false 0 1100,
+      { acc := true, ack := .normal, expiry := 0, handled := true, problem := true, state := .critical, stype := .hard,
+        attempt := 1, nSet := 1, nClr := 0, nAckN := 2, nProbN := 0, comments := [⟨1100, false⟩] })]
+    = some .ackNotifyOnce := by decide
+
 /-- … and a comment entered after the clearing result's execution end that disappears. -/
 example : specTrace exCfg { state := .critical, ack := .normal, expiry := 0, comments := [⟨1050, false⟩] }
     [(.result .ok 1040 1040 1100,
